@@ -22,6 +22,7 @@ import (
 	"math"
 	mrand "math/rand"
 	"net"
+	"sync"
 	"time"
 
 	apicommon "github.com/enfein/mieru/v3/apis/common"
@@ -54,6 +55,13 @@ type StreamUnderlay struct {
 
 	// ---- client fields ----
 	block cipher.BlockCipher
+
+	// refreshBlock, if set, returns a block cipher whose key is derived
+	// from the current time. The first segment can be sent long after the
+	// connection was established, and the server only accepts keys that
+	// are derived from a recent time.
+	refreshBlock func() (cipher.BlockCipher, error)
+	blockMutex   sync.Mutex // protect block
 
 	// ---- server fields ----
 	serverUsers      *serveruser.Registry
@@ -413,7 +421,9 @@ func (t *StreamUnderlay) readOneSegment() (*segment, error) {
 	var decryptedMeta []byte
 	var authentication serveruser.Authentication
 	if t.recv == nil && t.isClient {
+		t.blockMutex.Lock()
 		t.recv = t.block.Clone()
+		t.blockMutex.Unlock()
 	}
 	if t.recv == nil {
 		decryptedMeta, authentication, err = t.serverInitRecvBlockCipherAndDecryptMetadata(encryptedMeta)
@@ -783,6 +793,15 @@ func (t *StreamUnderlay) maybeInitSendBlockCipher() error {
 		return nil
 	}
 	if t.isClient {
+		t.blockMutex.Lock()
+		defer t.blockMutex.Unlock()
+		if t.refreshBlock != nil && t.recv == nil {
+			block, err := t.refreshBlock()
+			if err != nil {
+				return fmt.Errorf("refresh block cipher failed: %w", err)
+			}
+			t.block = block
+		}
 		t.send = t.block.Clone()
 	} else {
 		if t.recv != nil {
